@@ -1223,7 +1223,7 @@ class _StopLostCase:
     PROT = 'MASTEDLVKAADEGLVSTK'
     UTR3P = 'GHLRAADLSGNEFR'
 
-    def __init__(self):
+    def __init__(self, utr_records=True):
         import sys
         from moPepGen import dna, svgraph
         from mpgverif.harness.annobuild import anno_one_gene
@@ -1239,7 +1239,9 @@ class _StopLostCase:
         self.vars = [(d, self.tx[d:d + 4], self.tx[d]), (snv, 'C', 'G')]
         assert self.tx[d:d + 4] == 'AATA' and self.tx[snv] == 'C', (self.tx[d:d + 4], self.tx[snv])
         # GENCODE convention: the 3'UTR record starts at the stop codon, so the known ORF ends where the stop codon starts
-        anno = anno_one_gene(0, len(self.tx), 1, [(0, len(self.tx))], cds=[(cs, ce)], three_utr=[(ce, len(self.tx))])
+        # utr_records False: an annotation with exon and CDS rows only
+        anno = anno_one_gene(0, len(self.tx), 1, [(0, len(self.tx))], cds=[(cs, ce)],
+                             three_utr=[(ce, len(self.tx))] if utr_records else [])
         genome = dna.DNASeqDict({'chr1': dna.DNASeqRecord(Seq(self.tx), id='chr1', name='chr1', description='chr1')})
         tx_seqs = {'T1': anno.transcripts['T1'].get_transcript_sequence(genome['chr1'])}
         recs = []
@@ -1342,3 +1344,25 @@ def _mksl(prop, name, what, misc, tiers):
 c03_stop_lost_headers_1 = _mksl('C03', 'c03_stop_lost_headers_1', 'headers', 1, ('quick', 'thorough'))
 c01_stop_lost_traversal_1 = _mksl('C01', 'c01_stop_lost_traversal_1', 'check', 1, ('quick', 'thorough'))
 c03_stop_lost_headers_2 = _mksl('C03', 'c03_stop_lost_headers_2', 'headers', 2, ('thorough',))
+
+CASE_SL_NOUTR = _Lazy(lambda: _StopLostCase(utr_records=False))
+_BSLN = ("ONE concrete transcript (19 codons + an open in-frame 3' region) annotated with exon and CDS records only (NO UTR "
+         "records), in-frame deletion across the stop codon and an SNV downstream; miscleavage = %s, min_length and max_length "
+         'UNBOUNDED symbolic integers')
+
+
+def _mksln(prop, name, what, misc, tiers):
+    def f(lo: int, hi: int) -> int:
+        """
+        pre: 1 <= lo
+        post: _ >= 0
+        """
+        return getattr(CASE_SL_NOUTR, what)(misc, lo, hi)
+    f.__name__ = f.__qualname__ = name
+    return cond(prop, bounds=_BSLN % misc, encodes=ENC_SV + ['moPepGen.gtf.TranscriptAnnotationModel.get_cds_end_index'],
+                stubs=STUBS + ['variant pool -> stand-in without further variants'],
+                codes=CODES_H if what == 'headers' else CODES, timeout=900, tiers=tiers)(f)
+
+
+c03_stop_lost_headers_no_utr_1 = _mksln('C03', 'c03_stop_lost_headers_no_utr_1', 'headers', 1, ('quick', 'thorough'))
+c01_stop_lost_traversal_no_utr_1 = _mksln('C01', 'c01_stop_lost_traversal_no_utr_1', 'check', 1, ('quick', 'thorough'))
